@@ -176,3 +176,47 @@ Definition xbroker_witness : list (bool * bact nat) :=
    (false, Move nat 0%nat); (true, Move nat 0%nat); (true, Move nat 0%nat); (true, Move nat 0%nat)].
 Definition xbroker_log : list (bool * nat) :=
   xlog nat 0%nat (snd (xrun nat (binit nat 1%nat) (binit nat 1%nat) xbroker_witness)).
+
+(* ------------------------------------------------------------------ listener registration *)
+(** Part 4: AddListener / RemoveListener against Emit. [Emit] holds the broker's read lock for
+    its whole loop and Add/RemoveListener take the write lock, so an emit is ATOMIC with respect
+    to registration: it pushes the event to exactly the listeners registered at that moment.
+    A listener is (name, everything ever pushed to it). AddListener replaces a listener of the
+    same name (remove, then append a fresh one at the end), as coded. *)
+Section Registration.
+Variable E : Type.
+
+Inductive ract := REmit (e : E) | RAdd (n : nat) | RRem (n : nat).
+
+Fixpoint rremove (n : nat) (ls : list (nat * list E)) : list (nat * list E) :=
+  match ls with
+  | [] => []
+  | (m, q) :: ls' => if Nat.eqb n m then ls' else (m, q) :: rremove n ls'
+  end.
+
+Definition rstep (ls : list (nat * list E)) (a : ract) : list (nat * list E) :=
+  match a with
+  | REmit e => map (fun p => (fst p, snd p ++ [e])) ls
+  | RAdd n => rremove n ls ++ [(n, [])]
+  | RRem n => rremove n ls
+  end.
+
+Definition rrun (ls : list (nat * list E)) (sched : list ract) : list (nat * list E) := fold_left rstep sched ls.
+
+Fixpoint rget (n : nat) (ls : list (nat * list E)) : option (list E) :=
+  match ls with
+  | [] => None
+  | (m, q) :: ls' => if Nat.eqb n m then Some q else rget n ls'
+  end.
+
+Fixpoint remitted (sched : list ract) : list E :=
+  match sched with [] => [] | REmit e :: s => e :: remitted s | _ :: s => remitted s end.
+
+(** [n] is neither added (replaced) nor removed in the schedule. *)
+Fixpoint rstable (n : nat) (sched : list ract) : bool :=
+  match sched with
+  | [] => true
+  | REmit _ :: s => rstable n s
+  | RAdd m :: s | RRem m :: s => negb (Nat.eqb n m) && rstable n s
+  end.
+End Registration.
